@@ -10,7 +10,7 @@ from .. import boot as simboot
 from ..world_bucket import BucketWorld
 
 PROP = 'C20'
-QUICK = (64, 80, 50.0)
+QUICK = (128, 80, 60.0)
 THOROUGH = (1600, 120, 840.0)
 SHRINK_LISTS = ['ops', 'wops', 't2ops']
 SHRINK_DICTS = ['db_faults']
